@@ -228,6 +228,7 @@ Section Capped.
         apply pres_bind; [apply pres_emit; discriminate|intros ?]. apply cpres_srv_send, libinv_Armed.
     - eapply tri_conseq with (Pre' := Armed) (Q' := fun _ => Armed) (R' := Armed); [|tauto|auto|auto].
       apply pres_bind; [apply pres_modify; intros p; apply libinv_Armed; reflexivity|intros ?].
+      apply pres_bind; [apply pres_modify; intros p; apply libinv_Armed; reflexivity|intros ?].
       apply pres_bind; [apply pres_emit; discriminate|intros ?]. apply cpres_srv_send, libinv_Armed.
   Qed.
 
@@ -249,6 +250,7 @@ Section Capped.
       + eapply tri_conseq with (Pre' := Capped) (Q' := fun _ => Capped) (R' := Capped); [|tauto|auto|auto].
         apply pres_bind; [apply pres_emit; discriminate|intros ?]. apply cpres_srv_send, libinv_Capped.
     - eapply tri_conseq with (Pre' := Capped) (Q' := fun _ => Capped) (R' := Capped); [|tauto|auto|auto].
+      apply pres_bind; [apply pres_modify; intros p; apply libinv_Capped; reflexivity|intros ?].
       apply pres_bind; [apply pres_modify; intros p; apply libinv_Capped; reflexivity|intros ?].
       apply pres_bind; [apply pres_emit; discriminate|intros ?]. apply cpres_srv_send, libinv_Capped.
   Qed.
@@ -361,7 +363,7 @@ Section Capped.
   Proof.
     assert (FC : forall p, Fresh p -> Capped p) by (intros p [A _] _; exact A).
     unfold handle_one. apply tri_bind_get. intro p0.
-    destruct (last_response_in_progress p0); [apply tri_ret; tauto|].
+    destruct (p_closed p0 || last_response_in_progress p0); [apply tri_ret; tauto|].
     eapply tri_bind with (Mid := fun _ => Capped).
     { eapply tri_conseq with (Pre' := Capped) (Q' := fun _ => Capped) (R' := Capped); [|tauto|auto|auto].
       destruct (_ && _); [apply capped_send_closing; reflexivity|apply pres_ret]. }
@@ -440,7 +442,7 @@ Section Capped.
   Proof.
     intro Hp. destruct i as [evs| |m evs|].
     - apply pres_cstep_ok; [|exact Hp]. cbn [proto_step].
-      apply pres_bind; [apply pres_get|intro p0]. destruct (last_response_in_progress p0); [apply pres_ret|].
+      apply pres_bind; [apply pres_get|intro p0]. destruct (p_closed p0 || last_response_in_progress p0); [apply pres_ret|].
       apply pres_bind; [apply pres_emit; discriminate|intros ?].
       apply pres_bind; [apply pres_modify; intros q; apply libinv_Capped; reflexivity|intros ?].
       apply handle_events_capped.
